@@ -185,8 +185,15 @@ def work_deep(args):
                 d['ignored'] = ign
                 ctx.count('engines')
                 check_engine(ctx, d)
+    # hand-written factories that hand out less than the package defines
+    for name, desc in nested.items():
+        d = dict(desc)
+        d['style'] = 'custom'
+        d['unlisted'] = True
+        ctx.count('engines')
+        check_engine(ctx, d)
     out = ctx.export()
-    out['shapes'] = 2 * len(aegen.deep_engines()) + 6 * len(nested)
+    out['shapes'] = 2 * len(aegen.deep_engines()) + 7 * len(nested)
     return out
 
 
